@@ -1,11 +1,14 @@
-\* C12: bare fact perspectives (get_fact_perspective / write_facts, what a braid uses) over the
-\* canned contexts: every location, up to MaxFUps inserts/deletes over two keys, the written index.
+\* C12: bare fact perspectives (get_fact_perspective / write_facts, what a braid uses) and the merge
+\* perspective that takes the written braid index as prior facts, over the canned contexts; the
+\* merge segment is written and reopened at each command.
 INIT RevInit
 NEXT Next
 CONSTANTS
   Names = {"x"}
   Keys <- MCKeys
   ValChoice <- MCVal
+  OpenCands <- Locs
+  MergeCands <- AllPairs
   MaxDepth = 2
   Record = TRUE
   Fat = FALSE
@@ -13,14 +16,14 @@ CONSTANTS
   MaxCmds = 2
   MaxCur = 1
   MaxCps = 0
-  MaxTotCmds = 3
-  MaxTotUps = 3
+  MaxTotCmds = 4
+  MaxTotUps = 4
   MaxFUps = 2
-  MaxIdx = 5
+  MaxIdx = 7
   NoErr = TRUE
   SimDepth = 0
 ACTION_CONSTRAINT EmitFacts
 VIEW View
-INVARIANTS SegRefines MidRefines PerspRefines FactPerspRefines ChainOK PriorFactsOK
+INVARIANTS SegRefines MidRefines PerspRefines FactPerspRefines BraidRefines ChainOK PriorFactsOK
 PROPERTIES RevertExact
 CHECK_DEADLOCK FALSE
